@@ -297,7 +297,31 @@ func genPerioConc(root, outdir string) {
 	if len(rows) == 0 {
 		die("internal/forwarder/perio/server.go: no channel operations found")
 	}
-	o.p("Definition perio_chanops : list (string * string * string) := [\n%s\n].", strings.Join(rows, ";\n"))
+	o.p("Definition perio_chanops : list (string * string * string) := [\n%s\n].\n", strings.Join(rows, ";\n"))
+	o.p("(* calls: (function, callee) - unresolved receivers appear as ?.Method *)")
+	rows = nil
+	for _, n := range names {
+		var cs []string
+		for c := range p.funcs[n].calls {
+			cs = append(cs, strings.TrimSuffix(c, "?closure"))
+		}
+		sort.Strings(cs)
+		for _, c := range cs {
+			rows = append(rows, fmt.Sprintf("  (%s, %s)", coqStr(n), coqStr(c)))
+		}
+	}
+	o.p("Definition perio_calls : list (string * string) := [\n%s\n].\n", strings.Join(rows, ";\n"))
+	o.p("(* struct fields each function touches *)")
+	rows = nil
+	for _, n := range names {
+		var fs []string
+		for f := range p.funcs[n].fields {
+			fs = append(fs, coqStr(f))
+		}
+		sort.Strings(fs)
+		rows = append(rows, fmt.Sprintf("  (%s, [%s])", coqStr(n), strings.Join(fs, "; ")))
+	}
+	o.p("Definition perio_access : list (string * list string) := [\n%s\n].", strings.Join(rows, ";\n"))
 	writeIfChanged(filepath.Join(outdir, "PerioConcGen.v"), o.b.String())
 }
 
